@@ -44,7 +44,7 @@ def run_c12(ctx):
         raise C.ToolError("vacuity gate: the as-found model (ExtMarker = FALSE) no longer violates InvReply")
     ctx.mc_runs[-1]["note"] = "mutation self-test: expected violation of InvReply found"
     # conformance
-    stride = 13 if ctx.quick else 1
+    stride = 5 if ctx.quick else 1
     trace = ctx.path("init.ndjson")
     work = ctx.path("initwork")
     os.makedirs(work, exist_ok=True)
